@@ -8,6 +8,7 @@ package main
 
 import (
 	"fmt"
+	"sort"
 
 	"golang.org/x/tools/go/ssa"
 )
@@ -154,6 +155,7 @@ func checkLoopProgress(w *World, fn *ssa.Function) []loopFinding {
 		for p := range phis {
 			lf.Vars = append(lf.Vars, p.Comment)
 		}
+		sort.Strings(lf.Vars) // the message must not depend on map order
 		if !hasExit {
 			// no conditional exit inside the loop: leaves only by return/break elsewhere — treat returns as exits
 			lf.NoVars = true
